@@ -7,7 +7,7 @@ all packages (except the doc-only root) build with and without -tags badger; dem
 the baseline suite's passing set is exactly BASELINE.stable_pass. Removes the worktree afterwards."""
 import sys, os, re, json, subprocess, shutil, shlex
 prop, letter, src = sys.argv[1:4]
-BASE = "2666ee5"
+BASE = os.environ.get("SEED_BASE", "2666ee5")
 env = dict(os.environ, GOFLAGS="-mod=mod", GOPROXY="off", GOSUMDB="off", GOTOOLCHAIN="local")
 wt = "/tmp/cf-%s%s" % (prop, letter)
 def sh(cmd, cwd=None, timeout=1500):
